@@ -8,113 +8,11 @@
 // mj_recompile on a stepped mjData.  All model bytes must be identical; recompile must preserve the state.
 #include "simdrv.h"
 #include "natdrv.h"
+#include "assetgen.h"
 
 using nd::Rng;
 
-static std::string f(double v) { char b[40]; snprintf(b, sizeof b, "%.5g", v); return b; }
-
-struct Shape { const char* verts; const char* faces; int nv; };
-static const Shape kShapes[] = {
-    {"0 0 0  1 0 0  0 1 0  0 0 1", "0 2 1  0 1 3  0 3 2  1 2 3", 4},
-    {"-1 -1 0  1 -1 0  1 1 0  -1 1 0  0 0 1.5", "0 2 1  0 3 2  0 1 4  1 2 4  2 3 4  3 0 4", 5},
-    {"-1 -1 -1  1 -1 -1  1 1 -1  -1 1 -1  -1 -1 1  1 -1 1  1 1 1  -1 1 1", "0 2 1  0 3 2  4 5 6  4 6 7  0 1 5  0 5 4  1 2 6  1 6 5  2 3 7  2 7 6  3 0 4  3 4 7", 8},
-    {"1 0 0  -1 0 0  0 1 0  0 -1 0  0 0 1  0 0 -1", "0 2 4  2 1 4  1 3 4  3 0 4  2 0 5  1 2 5  3 1 5  0 3 5", 6},
-};
-
-static std::string gen_xml(Rng& r, int* nmesh_out, int* ntex_out, int* nmuscle_out, const std::set<int>& mdrop) {
-  int elem = 0;
-  auto keep = [&]() { return !mdrop.count(elem++); };
-  std::string asset, geoms, x;
-  int nmesh = 0, ntex = 0;
-  int want_mesh = r.range(2, 8), want_tex = r.range(1, 6);
-  for (int i = 0; i < want_mesh; i++) {
-    if (!keep()) { for (int k = 0; k < 40; k++) r.next(); continue; }
-    Rng q(r.next());
-    for (int k = 0; k < 39; k++) r.next();
-    std::string nm = "mesh" + std::to_string(i);
-    std::string a = "<mesh name=\"" + nm + "\" ";
-    int kind = q.below(10);
-    if (kind < 5) {
-      const Shape& sh = kShapes[q.below(4)];
-      // jitter vertices a little (orientation of the faces is preserved)
-      std::string v; const char* p = sh.verts;
-      for (int k = 0; k < 3 * sh.nv; k++) { double val = strtod(p, (char**)&p); v += f(val + q.uniform(-0.08, 0.08)) + " "; }
-      a += "vertex=\"" + v + "\" face=\"" + sh.faces + "\"";
-      if (q.chance(0.5)) a += " scale=\"" + f(q.uniform(0.05, 0.3)) + " " + f(q.uniform(0.05, 0.3)) + " " + f(q.uniform(0.05, 0.3)) + "\"";
-      if (q.chance(0.3)) a += " inertia=\"" + std::string(q.chance(0.5) ? "shell" : "exact") + "\"";
-      if (q.chance(0.3)) a += " smoothnormal=\"true\"";
-      if (q.chance(0.2)) a += " refpos=\"0.1 0 0.05\" refquat=\"0.7071 0.7071 0 0\"";
-    } else {
-      int b = q.below(7);
-      switch (b) {
-        case 0: a += "builtin=\"sphere\" params=\"" + std::to_string(q.range(0, 3)) + "\""; break;
-        case 1: a += "builtin=\"hemisphere\" params=\"" + std::to_string(q.range(1, 3)) + "\""; break;
-        case 2: a += "builtin=\"cone\" params=\"" + std::to_string(q.range(3, 24)) + " " + f(q.uniform(0.1, 1.0)) + "\""; break;
-        case 3: a += "builtin=\"supersphere\" params=\"" + std::to_string(q.range(4, 14)) + " " + f(q.uniform(0.3, 1.5)) + " " + f(q.uniform(0.3, 1.5)) + "\""; break;
-        case 4: a += "builtin=\"supertorus\" params=\"" + std::to_string(q.range(4, 14)) + " " + f(q.uniform(0.1, 0.4)) + " " + f(q.uniform(0.5, 1.5)) + " " + f(q.uniform(0.5, 1.5)) + "\""; break;
-        case 5: a += "builtin=\"wedge\" params=\"" + std::to_string(q.range(2, 12)) + " " + std::to_string(q.range(2, 12)) + " " + f(q.uniform(20, 60)) + " " + f(q.uniform(20, 60)) + " " + f(q.uniform(0, 0.5)) + "\""; break;
-        default: a += "builtin=\"plate\" params=\"" + std::to_string(q.range(2, 24)) + " " + std::to_string(q.range(2, 24)) + "\""; break;
-      }
-      a += " scale=\"" + f(q.uniform(0.05, 0.2)) + " " + f(q.uniform(0.05, 0.2)) + " " + f(q.uniform(0.05, 0.2)) + "\"";
-    }
-    a += "/>";
-    asset += a;
-    nmesh++;
-    geoms += "<geom name=\"g_" + nm + "\" type=\"mesh\" mesh=\"" + nm + "\" contype=\"0\" conaffinity=\"0\" pos=\"" + f(0.2 * i) + " 0 0\"/>";
-  }
-  std::vector<std::string> tex2d;
-  for (int i = 0; i < want_tex; i++) {
-    if (!keep()) { for (int k = 0; k < 20; k++) r.next(); continue; }
-    Rng q(r.next());
-    for (int k = 0; k < 19; k++) r.next();
-    std::string nm = "tex" + std::to_string(i);
-    static const char* types[] = {"2d", "cube", "skybox"};
-    static const char* built[] = {"checker", "gradient", "flat"};
-    int ty = q.below(3);
-    int w = 4 * q.range(1, 16), h = ty == 0 ? 4 * q.range(1, 16) : w;
-    if (ty != 0 && q.chance(0.3)) h = 6 * w;
-    std::string a = "<texture name=\"" + nm + "\" type=\"" + types[ty] + "\" builtin=\"" + built[q.below(3)] + "\" width=\"" + std::to_string(w) + "\" height=\"" + std::to_string(h) +
-                    "\" rgb1=\"" + f(q.unit()) + " " + f(q.unit()) + " " + f(q.unit()) + "\" rgb2=\"" + f(q.unit()) + " " + f(q.unit()) + " " + f(q.unit()) + "\"";
-    int mk = q.below(4);
-    if (mk == 1) a += " mark=\"edge\" markrgb=\"1 1 1\"";
-    else if (mk == 2) a += " mark=\"cross\" markrgb=\"0 0 0\"";
-    else if (mk == 3) a += " mark=\"random\" random=\"" + f(q.uniform(0.01, 0.3)) + "\" markrgb=\"1 0 1\"";
-    a += "/>";
-    asset += a;
-    if (ty == 0) tex2d.push_back(nm);
-    ntex++;
-  }
-  for (size_t i = 0; i < tex2d.size(); i++) asset += "<material name=\"mat" + std::to_string(i) + "\" texture=\"" + tex2d[i] + "\" texrepeat=\"2 2\"/>";
-  // articulated part with muscles (so that the length-range pool runs)
-  int nlink = r.range(1, 4);
-  int nmuscle = 0;
-  std::string bodies, tendons, acts;
-  std::string close;
-  for (int i = 0; i < nlink; i++) {
-    bodies += "<body name=\"l" + std::to_string(i) + "\" pos=\"" + (i ? "0 0 -0.3" : "0 0 1") + "\"><joint name=\"j" + std::to_string(i) + "\" type=\"hinge\" axis=\"0 1 0\" range=\"-1 1\" limited=\"true\" damping=\"0.1\"/>"
-              "<geom type=\"capsule\" size=\"0.03\" fromto=\"0 0 0 0 0 -0.3\"/><site name=\"s" + std::to_string(i) + "\" pos=\"0.05 0 -0.15\"/>";
-    close += "</body>";
-  }
-  bodies += close;
-  int want_muscle = r.range(0, 5);
-  for (int i = 0; i < want_muscle; i++) {
-    if (!keep()) { r.next(); r.next(); continue; }
-    int j = r.below(nlink); bool viat = r.chance(0.4) && nlink >= 2;
-    if (viat) {
-      int a = r.below(nlink), b = (a + 1 + r.below(nlink - 1)) % nlink;
-      tendons += "<spatial name=\"t" + std::to_string(i) + "\"><site site=\"s" + std::to_string(a) + "\"/><site site=\"s" + std::to_string(b) + "\"/></spatial>";
-      acts += "<muscle name=\"m" + std::to_string(i) + "\" tendon=\"t" + std::to_string(i) + "\"/>";
-    } else { r.next(); acts += "<muscle name=\"m" + std::to_string(i) + "\" joint=\"j" + std::to_string(j) + "\"/>"; }
-    nmuscle++;
-  }
-  x = "<mujoco model=\"c33\"><compiler angle=\"radian\"><lengthrange inttotal=\"0.6\" interval=\"0.2\" timestep=\"0.02\" tolrange=\"100\"/></compiler><option timestep=\"0.005\"/>";
-  x += "<asset>" + asset + "</asset><worldbody><site name=\"sw\" pos=\"0.2 0 1.2\"/><body name=\"meshes\" pos=\"0 1 0.5\"><freejoint/>" + geoms + "<geom size=\"0.05\"/></body>" + bodies + "</worldbody>";
-  if (!tendons.empty()) x += "<tendon>" + tendons + "</tendon>";
-  if (!acts.empty()) x += "<actuator>" + acts + "</actuator>";
-  x += "</mujoco>";
-  *nmesh_out = nmesh; *ntex_out = ntex; *nmuscle_out = nmuscle;
-  return x;
-}
+using ag::gen_xml;
 
 static std::vector<char> model_bytes(const mjModel* m) {
   std::vector<char> b((size_t)mj_sizeModel(m));
